@@ -1,5 +1,7 @@
 package main
 
+import "strings"
+
 func codecFuncs() []FuncCheck {
 	var out []FuncCheck
 	for _, t := range []string{"uint8", "uint16", "uint32", "uint64", "uint"} {
@@ -47,7 +49,7 @@ func propDefs() map[string]*PropDef {
 		},
 		DesignRef: "DESIGN.md section 5 C10",
 	}
-	safetyInc := []string{`^safety/`, `^cast/`, `^extent/`, `/call:`, `/loop\d+/`, `/pure`, `/noop_frame`, `/result`}
+	safetyInc := []string{`^safety/`, `^cast/`, `^extent/`, `/call:`, `/closure:`, `/captures/`, `/loop\d+/`, `/pure`, `/noop_frame`, `/result`, `/live`, `/none_iff_empty`}
 	m["C01"] = &PropDef{
 		ID: "C01",
 		Funcs: append(treeFuncs([]string{"Search", "Delete", "Insert"},
@@ -62,6 +64,39 @@ func propDefs() map[string]*PropDef {
 			"known finding F8 (alpha keys with embedded 0x00 are not prefix-free: Insert(\"a\"); Insert(\"a\\x00\") loses a key) is outside this check's scope (functional half)",
 		},
 		DesignRef: "DESIGN.md section 5 C01",
+	}
+	m["C03"] = &PropDef{
+		ID: "C03",
+		Funcs: append(wrapperFuncs([]string{"Range", "restoreKey"}, safetyInc), append(seqFuncsOnly("rangeScan", safetyInc), FuncCheck{Fn: "maximum", Layer: "C", Include: safetyInc}, FuncCheck{Fn: "longestCommonPrefix", Layer: "C", Include: safetyInc})...),
+		Floor: 1500,
+		Assumptions: []string{
+			"SCOPE: decides the 'returns normally' half of C03 and the empty-tree clause: Range of all six kinds, the closure it returns (rangeScan$1 per leaf class; the single-key closure of the numeric kinds) and their helpers carry an obligation at every index, slice, nil dereference, cast, unsafe.Slice, explicit panic and callee precondition, for every pair of bounds (empty, reversed, equal) and every tree satisfying WF1 - including the empty tree, where Range must not descend (defect F3, fixed: maximum() and the scan require a non-nil root, which the constructor must establish: captures clause); Range is proved to write nothing in the tree",
+			"NOT decided: which keys are yielded (none missing / none outside / order). That needs the path-coherence invariant (rung 2) and a sequence-valued ghost result; defect F4 (fixed) was of that kind and is guarded by the seeded canary only through its safety symptoms",
+			"assumed: WF1 preservation, LinkedLive, as in C01; the overflow obligation of the per-entry depth counter is generated but not claimed",
+		},
+		DesignRef: "DESIGN.md section 5 C03, section 12",
+	}
+	m["C04"] = &PropDef{
+		ID: "C04",
+		Funcs: append(wrapperFuncs([]string{"Prefix", "All", "restoreKey"}, safetyInc), append(seqFuncsOnly("lowestCommonParent", safetyInc), seqFuncsOnly("filter$1", safetyInc)...)...),
+		Floor: 150,
+		Assumptions: []string{
+			"SCOPE: decides the 'returns normally for every p and every tree shape' clause of C04: Prefix of the byte-string and collation trees, lowestCommonParent per leaf class (descent loop with invariant 0 <= depth <= len(prefix), live current node, and a decreasing measure: it terminates) and the filtering scan filter$1 carry an obligation at every index, slice, cast, unsafe.Slice and callee precondition, for every p and every tree satisfying WF1; the selected subtree is proved to be a live node of the same tree (ensures live). Defect F5 (fixed) had a panic of this kind as one symptom",
+			"NOT decided: that the selected subtree contains every matching key and the filter yields exactly the matching keys in order (rung 2)",
+		},
+		DesignRef: "DESIGN.md section 5 C04, section 12",
+	}
+	m["C05"] = &PropDef{
+		ID: "C05",
+		Funcs: append(wrapperFuncs([]string{"Minimum", "Maximum", "restoreKey"}, safetyInc),
+			FuncCheck{Fn: "minimum", Layer: "C"}, FuncCheck{Fn: "maximum", Layer: "C"}),
+		Static: func(p *Program) []*Obligation { return reiterableObligations(p, []string{"topK$1", "bottomK$1"}) },
+		Floor: 250,
+		Assumptions: []string{
+			"SCOPE: decides for Minimum and Maximum of all six kinds: they report 'none' exactly when the tree is empty (none_iff_empty), otherwise return the key and value of a live leaf of this tree reached by the leftmost / rightmost occupied slot of every node class on the way (contracts of minimum/maximum: first/last occupied slot per class, result is a leaf, loop terminates), fault-free for every tree satisfying WF1, and write nothing. For TopK/BottomK only the per-iteration remaining count (defect F6, fixed) is decided, statically",
+			"NOT decided: that the leftmost leaf holds the smallest key (needs the ordering clause of the tree invariant, rung 2); the element sequences of TopK/BottomK",
+		},
+		DesignRef: "DESIGN.md section 5 C05, section 12",
 	}
 	m["C06"] = &PropDef{
 		ID: "C06",
@@ -87,23 +122,25 @@ func propDefs() map[string]*PropDef {
 			{Fn: "(*alphaSortedTree[K,V]).Search", Layer: "C", Include: []string{`/arg_bytes_unchanged`, `/pure`}},
 			{Fn: "(*alphaSortedTree[K,V]).Delete", Layer: "C", Include: []string{`/arg_bytes_unchanged@ret#[1-689](~|$)`, `/noop_frame`}},
 			{Fn: "(*alphaSortedTree[K,V]).Insert", Layer: "C", Include: []string{`/key_owned`, `/arg_bytes_unchanged@ret#(1|2|5|6|7)/`}},
+			{Fn: "(*alphaSortedTree[K,V]).Prefix", Layer: "C", Include: []string{`/arg_bytes_unchanged`, `/pure`}},
+			{Fn: "(*alphaSortedTree[K,V]).Range", Layer: "C", Include: []string{`/arg_bytes_unchanged`, `/pure`}},
 		},
 		Floor: 20,
 		Assumptions: []string{
 			"decided for the byte-string tree with K = []byte (the instantiation in which Transform returns the caller's slice): every byte of the key argument's backing object, including spare capacity, is unchanged after Search and Delete and on the return paths of Insert that call no node operation; every leaf allocated by Insert points into a byte object allocated inside the call (key_owned), so later caller writes cannot reach it",
 			"exact append semantics: in place when len < cap, fresh object otherwise; the three-index slice keyS[:len:len] makes the capacity test false",
-			"NOT claimed yet: arg_bytes_unchanged on the return paths of Insert that go through addChild and on the exit of Delete that goes through deleteChild (the byte-object frame of the node operations is proved at node level, but the call-site obligations are not yet stable within the quick timeout; they are generated and attempted on every run); Range and Prefix; collation trees",
+			"NOT claimed yet: arg_bytes_unchanged on the return paths of Insert that go through addChild and on the exit of Delete that goes through deleteChild (the byte-object frame of the node operations is proved at node level, but the call-site obligations are not yet stable within the quick timeout; they are generated and attempted on every run); collation trees. Range and Prefix are covered for the work done before the sequence is returned (the bounds are copied into fresh objects before the terminator is appended; the caller's bytes are unchanged); the returned closure keeps a reference to the COPIES only for Range and to p itself for Prefix (read-only use, filter$1 verified pure)",
 		},
 		DesignRef: "DESIGN.md section 5 C13",
 	}
 	m["C15"] = &PropDef{
 		ID: "C15",
-		Funcs: treeFuncs([]string{"Search", "Size", "Delete", "Insert"},
-			map[string][]string{"Search": {`/pure`}, "Size": {`/pure`}, "Delete": {`/noop_frame`}, "Insert": {`/overwrite_only_value`}}, nil),
+		Funcs: append(treeFuncs([]string{"Search", "Size", "Delete", "Insert"},
+			map[string][]string{"Search": {`/pure`}, "Size": {`/pure`}, "Delete": {`/noop_frame`}, "Insert": {`/overwrite_only_value`}}, nil), append(seqFuncs([]string{`/pure`}), wrapperFuncs(allWrappers, []string{`/pure`})...)...),
 		Floor: 100,
 		Assumptions: []string{
 			"frame obligations: Search and Size leave every heap array unchanged on every object that existed at entry; Delete returning false leaves the heap unchanged; the overwrite exit of Insert changes nothing but the value field of a leaf",
-			"Minimum/Maximum and the sequence methods are not covered yet (their closures are verified for the iterator protocol only)",
+			"Minimum, Maximum, All, Backward, Prefix, Range (constructors) and the traversal closures all$1, backward$1, filter$1, rangeScan$1 are proved to leave every pre-existing heap object unchanged as well (frame()); TopK/BottomK delegate to All/Backward through the Tree interface and are not symbolically executed",
 			"glue (frame rule): a call that writes nothing in the tree cannot affect any later result",
 		},
 		DesignRef: "DESIGN.md section 5 C15",
@@ -112,20 +149,22 @@ func propDefs() map[string]*PropDef {
 		"(*unsignedSortedTree[K,V]).Range$1", "(*signedSortedTree[K,V]).Range$1", "(*floatSortedTree[K,V]).Range$1"}
 	m["C14"] = &PropDef{
 		ID:     "C14",
+		Funcs:  append(seqFuncs(append([]string{`/protocol/`}, safetyInc...)), wrapperFuncs([]string{"All", "Backward", "Range", "Prefix"}, safetyInc)...),
 		Static: func(p *Program) []*Obligation { return reiterableObligations(p, seqClosures) },
-		Floor:  9,
+		Floor:  500,
 		Assumptions: []string{
 			"SCOPE: this check decides the re-iteration half of C14: no sequence closure (nor anything nested in it, including the synthetic range-over-func bodies) stores to a variable that outlives one invocation - captured variables of the function that created the sequence, or package-level variables. With the tree unchanged, a closure that writes nothing that survives it starts every invocation from the same state",
 			"glue G-det (paper): the closures are deterministic (no maps, goroutines, time, randomness) and read only their immutable captures and the heap",
-			"the 'stopped early: no further callback, no fault' half (protocol obligations on the traversal loops) is not registered yet",
+			"stopped-early half: in the traversal closures of All, Backward, Prefix and Range (all$1, backward$1, filter$1, rangeScan$1 per leaf class, the single-key closure of the numeric Range) a ghost flag records that yield returned false; every later call of yield carries the obligation that the flag is clear (protocol/no_call_after_false), and every index, cast, unsafe.Slice and callee precondition in them carries its safety obligation for every tree satisfying WF1 and every stack content satisfying the loop invariants. The constructors (All, Backward, Prefix, Range) are proved to establish what the closures capture (root non-nil for rangeScan)",
+			"NOT decided: topK$1/bottomK$1 beyond the re-iteration half (their range-over-func bodies are not symbolically executed); that the heap still satisfies WF1 when the sequence is iterated (it is a precondition of the closures: the statement says 'with the tree unchanged'); the overflow of rangeScan's per-entry depth counter (needs rung 2); identity of the two passes (follows from determinism + purity, glue G-det)",
 			"decided by static analysis of the SSA (store targets resolved through the closure-binding chain), not by the SMT solvers",
 		},
 		DesignRef: "DESIGN.md section 5 C14",
 	}
 	m["C16"] = &PropDef{
 		ID: "C16",
-		Funcs: treeFuncs([]string{"Search", "Size"},
-			map[string][]string{"Search": {`/pure`}, "Size": {`/pure`}}, nil),
+		Funcs: append(treeFuncs([]string{"Search", "Size"},
+			map[string][]string{"Search": {`/pure`}, "Size": {`/pure`}}, nil), append(seqFuncs([]string{`/pure`}), wrapperFuncs(allWrappers, []string{`/pure`})...)...),
 		Static: func(p *Program) []*Obligation {
 			return []*Obligation{globalsObligation(p), poolAccessObligation(p)}
 		},
@@ -133,7 +172,7 @@ func propDefs() map[string]*PropDef {
 		Assumptions: []string{
 			"proof of PREMISES only: deductive verification explores no schedule and runs no race detector. What is proved is the footprint premise of the disjoint-concurrency rule: Search and Size of the byte-string, numeric and compound trees write no pre-existing heap object (so any number of them may run on one quiescent tree), the only package-level state is the node pool, written only by its initialiser and reached only through sync.Pool.Get/Put, and every node operation writes only its own node, the relinked slot and fresh pool nodes (frames of C12)",
 			"assumed: the parallel-composition rule of separation logic, Go's DRF-SC guarantee, thread safety of sync.Pool, purity of user codecs; ownership disjointness of distinct trees (tree invariant, rung 2)",
-			"Minimum/Maximum and the sequence methods are not covered yet; collation trees are outside the concurrent-reader claim by the statement",
+			"the same footprint premise is proved for Minimum, Maximum, the sequence constructors and the traversal closures (TopK/BottomK only through All/Backward); collation trees are outside the concurrent-reader claim by the statement (their obligations are discharged all the same)",
 		},
 		DesignRef: "DESIGN.md section 5 C16",
 	}
@@ -141,7 +180,7 @@ func propDefs() map[string]*PropDef {
 		ID: "C18",
 		Funcs: append(treeFuncs([]string{"Search", "Delete", "Insert"},
 			map[string][]string{"Search": {`^cast/`, `^extent/`}, "Delete": {`^cast/`, `^extent/`}, "Insert": {`^cast/`, `^extent/`, `/key_owned`}},
-			map[string][]string{"Insert": insertRung2}), helperFuncs([]string{`^cast/`, `^extent/`})...),
+			map[string][]string{"Insert": insertRung2}), append(helperFuncs([]string{`^cast/`, `^extent/`}), append(seqFuncs([]string{`^cast/`, `^extent/`}), wrapperFuncs(allWrappers, []string{`^cast/`, `^extent/`})...)...)...),
 		Static: func(p *Program) []*Obligation {
 			return []*Obligation{noPtrHideObligation(p), leafLayoutObligation(p)}
 		},
@@ -149,7 +188,8 @@ func propDefs() map[string]*PropDef {
 		Assumptions: []string{
 			"proof of PREMISES only: no collector is run. Proved: every unsafe.Pointer -> *T conversion in Insert/Search/Delete and the descent helpers of the five generated kinds is applied to an object whose ghost allocation type is T (for V an uninterpreted type, so independent of the value type's size and pointer content); every unsafe.Slice(p, n) stays inside the byte object p points into; no pointer is converted to or from uintptr anywhere in the package; the five generated leaf structs are layout-identical",
 			"assumed: soundness of Go's collector and checkptr for heaps meeting these obligations; types.Sizes(gc, amd64) equals the compiler's layout; the typing invariant WF1 is preserved by Insert/Delete (see C11)",
-			"not covered yet: casts in the sequence closures, rangeScan, lowestCommonParent, restoreKey and collation.go",
+			"leaf structs with identical field lists form one layout class (govc/heap.go leafSig): the signed and float trees cast their leaves to *unsignedLeafNode in Range, which is accepted only because the classes coincide - a leaf struct that gains, loses or reorders a field leaves the class and the cast obligation fails",
+			"also covered: the casts and unsafe.Slice calls in the traversal closures, lowestCommonParent, restoreKey, Minimum/Maximum and the sequence constructors of all six kinds",
 		},
 		DesignRef: "DESIGN.md section 5 C18",
 	}
@@ -216,6 +256,69 @@ var insertRung2 = []string{
 	`index@newNode\.addChild\(ref,leafKey\[depth\+prefixDiff\]`,                                        // long path: leaf key is long enough
 	`^extent/.*getTransformKey`,                                                                             // long path: minimum leaf's key extent after relinking
 }
+
+// seqFuncs: the traversal closures behind the sequence methods and the subtree selection of
+// Prefix. rangeScan's closure exists once per leaf class it is instantiated with.
+func seqFuncs(include []string) []FuncCheck {
+	out := []FuncCheck{
+		{Fn: "all$1", Layer: "C", Include: include},
+		{Fn: "backward$1", Layer: "C", Include: include},
+		{Fn: "filter$1", Layer: "C", Include: include},
+		{Fn: "lowestCommonParent@alpha", Layer: "C", Include: include},
+		{Fn: "lowestCommonParent@collation", Layer: "C", Include: include},
+	}
+	for _, k := range genKinds {
+		// childDepth := depth + prefixLen + 1 cannot be bounded without relating the depth carried on
+		// the stack to the ghost depth (rung 2): generated, not claimed
+		out = append(out, FuncCheck{Fn: "rangeScan$1@" + k, Layer: "C", Include: include, Exclude: []string{`overflow@childDepth`}})
+	}
+	return out
+}
+
+// seqFuncsOnly: the members of seqFuncs whose name starts with prefix.
+func seqFuncsOnly(prefix string, include []string) []FuncCheck {
+	var out []FuncCheck
+	for _, f := range seqFuncs(include) {
+		if strings.HasPrefix(f.Fn, prefix) {
+			out = append(out, f)
+		}
+	}
+	return out
+}
+
+var numericKinds = []string{"unsigned", "signed", "float"}
+
+// wrapperFuncs: the thin public methods around the helpers and closures.
+func wrapperFuncs(methods []string, include []string) []FuncCheck {
+	var out []FuncCheck
+	has := func(m string) bool {
+		for _, x := range methods {
+			if x == m {
+				return true
+			}
+		}
+		return false
+	}
+	for _, k := range genKinds {
+		for _, m := range []string{"restoreKey", "Minimum", "Maximum", "All", "Backward", "Range"} {
+			if has(m) {
+				out = append(out, FuncCheck{Fn: "(*" + k + "SortedTree[K,V])." + m, Layer: "C", Include: include})
+			}
+		}
+	}
+	if has("Range") {
+		for _, k := range numericKinds {
+			out = append(out, FuncCheck{Fn: "(*" + k + "SortedTree[K,V]).Range$2", Layer: "C", Include: include})
+		}
+	}
+	if has("Prefix") {
+		out = append(out, FuncCheck{Fn: "(*alphaSortedTree[K,V]).Prefix", Layer: "C", Include: include},
+			FuncCheck{Fn: "(*collationSortedTree[K,V]).Prefix", Layer: "C", Include: include})
+	}
+	return out
+}
+
+var allWrappers = []string{"restoreKey", "Minimum", "Maximum", "All", "Backward", "Range", "Prefix"}
 
 func node16OtherFuncs() []FuncCheck {
 	return []FuncCheck{
